@@ -2733,10 +2733,13 @@ static Type *union_decl(Token **rest, Token *tok) {
   // are already initialized to zero. We need to compute the
   // alignment and the size though.
   for (Member *mem = ty->members; mem; mem = mem->next) {
-    if (ty->align < mem->align && !(mem->is_bitfield && !mem->name))
+    if (!ty->is_packed && ty->align < mem->align && !(mem->is_bitfield && !mem->name))
       ty->align = mem->align;
-    if (ty->size < mem->ty->size)
-      ty->size = mem->ty->size;
+
+    // A bit-field occupies only the bytes that hold its bits.
+    int sz = mem->is_bitfield ? (mem->bit_width + 7) / 8 : mem->ty->size;
+    if (ty->size < sz)
+      ty->size = sz;
   }
   ty->size = align_to(ty->size, ty->align);
   return ty;
